@@ -280,6 +280,7 @@ class FsStore(Store):
                  relative: bool = False) -> None:
         super().__init__()
         self.relative = relative
+        self._probe = None
         self.kind = "fs" + (str(n_paths) if n_paths > 1 else "") + ("x" if ext else "") + (
             "+d" if with_dict else "")
         self.fs = fs or simfs.SimFS()
@@ -317,12 +318,28 @@ class FsStore(Store):
         return str(p)
 
     def locs(self, name: str) -> list[str]:
-        out = [f"{r}/{self._fname(name)}" for r in self.roots]
         if self.relative:
-            out = [f"{self.fs.cwd}/{x}" for x in out]
+            out = [f"{b}/{self._fname(name)}" for b in self.bases()]
+        else:
+            out = [f"{r}/{self._fname(name)}" for r in self.roots]
         if self.dict is not None:
             out.append(f"d0:{name}")
         return out
+
+    def bases(self) -> list[str]:
+        """Where the loaders' (relative) search paths point NOW.  Asked of the real uncached
+        loader: an implementation may keep the path relative (it follows the working directory)
+        or make it absolute when the loader is built (it never moves) - both are transparent."""
+        sps = getattr(self._probe, "search_path", None) if self._probe is not None else None
+        out = []
+        for i, r in enumerate(self.roots):
+            sp = str(sps[i]) if sps is not None and i < len(sps) else r
+            out.append(sp if sp.startswith("/") else f"{self.fs.cwd}/{sp}")
+        return out
+
+    def current_tree(self) -> str:
+        """'/simfs/cwdA' or '/simfs/cwdB': the tree the loaders read now."""
+        return "/".join(self.bases()[0].split("/")[:3])
 
     def write(self, loc: str, content: str, mtime=None) -> None:
         if loc.startswith("d0:"):
@@ -363,6 +380,19 @@ class FsStore(Store):
 
     def make_loader(self, caching: bool, **kw):
         sp = self.roots if len(self.roots) > 1 else self.roots[0]
+        if self.relative:
+            # every loader of this world is built under the FIRST working directory (also the
+            # counterpart over a clone, built later), whatever an implementation makes of it
+            old_cwd, self.fs.cwd = self.fs.cwd, CWDS[0]
+            try:
+                if caching:
+                    return CachingFileSystemLoader(sp, encoding=self.encoding, ext=self.ext, **kw)
+                ld = FileSystemLoader(sp, encoding=self.encoding, ext=self.ext)
+                if self._probe is None:
+                    self._probe = ld
+                return ld
+            finally:
+                self.fs.cwd = old_cwd
         if self.dict is None:
             if caching:
                 return CachingFileSystemLoader(sp, encoding=self.encoding, ext=self.ext, **kw)
